@@ -354,3 +354,44 @@ def run(ck, ctx):
                 ck.ob("R12.5", "spec_norm == (1 - index) / (B - A)", P.equal(P.of(v), P.ref("mp/(B - A)", env)), v,
                       "spec_norm", P.show(P.of(v))[:200])
     ck.guard(r125, "R12.4/R12.5")
+
+    # ---------------------------------------------------------------- R12.7 whole-number settings are the same settings
+    def r127():
+        """index = 3 in a TOML file is the index 3.0.  Where the schema keeps such a value as an integer (a field typed
+        int or Union[int, float]), arithmetic that means something else on integers - np.reciprocal (0 for every
+        integer beyond 1), floor division - must not be applied to values made of it and integer constants only."""
+        def admits_int(path):
+            fs = I.schema.field_at(path) if I.schema is not None else None
+            return bool(fs) and any(f.prim in ("int", "mixed") for f in fs)
+
+        def int_typed(n, depth=0):
+            if depth > 16:
+                return False
+            if n.op == "Cfg":
+                return admits_int(n.attr)
+            if n.op == "Const":
+                return isinstance(n.attr, int) and not isinstance(n.attr, bool)
+            if n.op == "BinOp" and n.attr in ("Add", "Sub", "Mult", "FloorDiv", "Mod", "Pow"):
+                return all(int_typed(a, depth + 1) for a in n.args)
+            if n.op == "UnaryOp":
+                return int_typed(n.args[0], depth + 1)
+            return False
+        n_ops = 0
+        for v in (sample, norm, wsum):
+            for n in walk([v]):
+                arg = what = None
+                if is_ext_call(n, "numpy.reciprocal") and len(n.args) >= 2:
+                    arg, what = n.args[1], "np.reciprocal"
+                elif is_ext_call(n, "numpy.floor_divide") and len(n.args) >= 3:
+                    arg, what = n.args[1], "np.floor_divide"
+                elif n.op == "BinOp" and n.attr == "FloorDiv":
+                    arg, what = n.args[0], "//"
+                if arg is None:
+                    continue
+                n_ops += 1
+                ck.ob("R12.7", f"{what} at {n.where()} is not applied to a value the schema may keep as an integer",
+                      not int_typed(arg), n, func, g.show(arg, 3) + ": integer arithmetic for a whole-number setting "
+                      "(np.reciprocal(-2) is 0)" if int_typed(arg) else "",
+                      construct=f"{what} of an integer-typed configuration value")
+        ck.info["integer_sensitive_operations"] = n_ops
+    ck.guard(r127, "R12.7")
